@@ -24,13 +24,13 @@ func c07PPP(entry string, n []uint64, f []string) string {
 			code, id, p, err = ParseIPv6CPPacket(data)
 		}
 		if err != nil {
-			return "err 1"
+			return "err"
 		}
 		return c07Ok(c07U(uint64(code)), c07U(uint64(id)), c07TB(p))
 	case "pppopts":
 		opts, err := ParseOptions(data)
 		if err != nil {
-			return "err 1"
+			return "err"
 		}
 		toks := []string{c07U(uint64(len(opts)))}
 		for _, o := range opts {
@@ -132,7 +132,7 @@ func c07PPP(entry string, n []uint64, f []string) string {
 	case "rtopts": // round trip: <data> is parsed, re-serialised and parsed again
 		opts, err := ParseOptions(data)
 		if err != nil {
-			return "err 1"
+			return "err"
 		}
 		return c07Ok(c07TB(SerializeOptions(opts)))
 	}
